@@ -119,7 +119,7 @@ func minInt(a, b int) int {
 }
 
 func checkC19(c *hx.Ctx) {
-	c.Rule("generated internal documents (0-6 keys over every verification-method type x purpose subset permitted by the type table, JWK or base58 material, Ed25519 2018/2020 re-encoding, 0-4 services with string / list / object endpoints and extra members, aliases, custom members), random resolution models (commitments present/absent, anchor origins of several JSON shapes, deactivated, version id, created/updated times, operation lists) and transformer options (base, 0-6 method contexts, operation-list flags, published flag, canonical/equivalent ids); each transformer instance serves many documents and EVERY result is re-checked after all later transformations (also from concurrent goroutines) against an independent projection; a slice goes through DocumentHandler.ResolveDocument (anchored DIDs, and long forms of unregistered DIDs through handlers with label / domain options: id, short-form equivalent ids, unpublished); non-trivial = document with >= 1 key or service; distinct = distinct (document, options)")
+	c.Rule("generated internal documents (0-6 keys over every verification-method type x purpose subset permitted by the type table, JWK or base58 material, Ed25519 2018/2020 re-encoding, 0-4 services with string / list / object endpoints and extra members, aliases, custom members), random resolution models (commitments present/absent, anchor origins of several JSON shapes, deactivated, version id, created/updated times, operation lists) and transformer options (base, 0-6 method contexts, operation-list flags, published flag, canonical/equivalent ids); each transformer instance serves many documents and EVERY result is re-checked after all later transformations (also from concurrent goroutines) against an independent projection; a slice goes through DocumentHandler.ResolveDocument (anchored DIDs by short and by long form, and long forms of unregistered DIDs through handlers with label / domain options: id, short-form equivalent ids, unpublished); non-trivial = document with >= 1 key or service; distinct = distinct (document, options)")
 	nTransf := c.N(700, 12000)
 	perTransf := 20
 	root := c.Rng("cases")
@@ -404,6 +404,28 @@ func checkC19(c *hx.Ctx) {
 				return
 			}
 		}
+		// the anchored DID requested through its long form (the create request travels along): same document, qualified with the
+		// DID itself - not with the long form -, same metadata
+		{
+			var tree map[string]interface{}
+			if json.Unmarshal(cr.Req, &tree) == nil {
+				long := did + ":" + ref.B64(ref.MustJCS(map[string]interface{}{"suffixData": tree["suffixData"], "delta": tree["delta"]}))
+				c.Eval()
+				res, err := dh.ResolveDocument(long)
+				if err != nil {
+					c.Violation(fmt.Sprintf("C19 an anchored DID does not resolve through its long form: %v", err), replay)
+					return
+				}
+				mi := ref.MetaIn{UpdateCommitment: st.UpdateCommitment, RecoveryCommitment: st.RecoveryCommitment, AnchorOrigin: st.AnchorOrigin, Deactivated: st.Deactivated,
+					Published: true, VersionID: st.VersionID, CreatedTime: st.CreatedTime, UpdatedTime: st.UpdatedTime, CanonicalID: canonical, EquivalentID: eqIDs}
+				if why := compareProjection(res, ref.NormalizeDoc(st.Doc), did, o, mi, 0, 0); why != "" && why[:5] != "skip:" {
+					replay["result"], replay["requested"] = roundTrip(res), long
+					c.Violation("C19 an anchored DID requested through its long form: "+why, replay)
+					return
+				}
+				c.Count("anchored_dids_resolved_through_their_long_form")
+			}
+		}
 		if withEq {
 			c.Count("resolved_through_handler_with_equivalent_references")
 		}
@@ -476,6 +498,7 @@ func checkC19(c *hx.Ctx) {
 	c.Floor("material:jwk", 100)
 	c.Floor("rechecked_after_later_calls", 1000)
 	c.Floor("resolved_through_handler", 50)
+	c.Floor("anchored_dids_resolved_through_their_long_form", 50)
 	c.Floor("long_form_resolved_through_configured_handler", 100)
 	c.Floor("published_dids_with_a_pending_operation", 20)
 	c.Floor("models_with_repeated_published_operations", 20)
